@@ -404,6 +404,27 @@ func r183(c *Ctx, pkg *packages.Package) {
 	seps := func(fd *ast.FuncDecl, writer bool) []string {
 		var out []string
 		ast.Inspect(fd.Body, func(n ast.Node) bool {
+			// a + ":" + b + "#" + c: the constant operands of a concatenation, left to right
+			if be, ok := n.(*ast.BinaryExpr); ok && writer && be.Op == token.ADD {
+				if tv, ok := pkg.TypesInfo.Types[be]; ok && tv.Type != nil && isStringT2(tv.Type) && tv.Value == nil {
+					var flat func(e ast.Expr)
+					flat = func(e ast.Expr) {
+						e = unparen(e)
+						if b2, ok := e.(*ast.BinaryExpr); ok && b2.Op == token.ADD {
+							flat(b2.X)
+							flat(b2.Y)
+							return
+						}
+						if tv, ok := pkg.TypesInfo.Types[e]; ok && tv.Value != nil && tv.Value.Kind() == constant.String {
+							if s := constant.StringVal(tv.Value); s != "" {
+								out = append(out, s)
+							}
+						}
+					}
+					flat(be)
+					return false
+				}
+			}
 			call, ok := n.(*ast.CallExpr)
 			if !ok {
 				return true
@@ -413,6 +434,12 @@ func r183(c *Ctx, pkg *packages.Package) {
 				return true
 			}
 			switch {
+			case writer && sel.Sel.Name == "WriteString" && len(call.Args) == 1:
+				if tv, ok := pkg.TypesInfo.Types[call.Args[0]]; ok && tv.Value != nil && tv.Value.Kind() == constant.String {
+					if s := constant.StringVal(tv.Value); s != "" && !strings.HasPrefix(s, "<") {
+						out = append(out, s)
+					}
+				}
 			case writer && sel.Sel.Name == "WriteRune" && len(call.Args) == 1:
 				if tv, ok := pkg.TypesInfo.Types[call.Args[0]]; ok && tv.Value != nil {
 					if v, ok := constant.Int64Val(tv.Value); ok {
